@@ -16,8 +16,8 @@ theorem bfloat_decode_ok (c : Nat) (hc : c < 65536) :
   have := (bfChk_spec (bfChk_all c hc)).1
   simp [decode, Except.map, this]
 
-/-- The little-endian variant reads the byte-swapped code. -/
-theorem bfloatle_decode_ok (c : Nat) (hc : c < 65536) :
+/-- The little-endian variant reads the byte-swapped code (`bswap16` keeps the two low bytes, so no bound on `c` is needed). -/
+theorem bfloatle_decode_ok (c : Nat) :
     (decode .bfloatle c).map f64Val = .ok (f32Val (bswap16 c * 65536)) := by
   have hb : bswap16 c < 65536 := by unfold bswap16; omega
   have := (bfChk_spec (bfChk_all (bswap16 c) hb)).1
